@@ -6,6 +6,7 @@ fn tree(e: &Expr) -> Value {
         ExprKind::Binary(l, op, r) => json!([format!("{op:?}"), tree(l), tree(r)]),
         ExprKind::Literal(Literal::Integer(n)) => json!(n),
         ExprKind::Unary(op, inner) => json!({"unary": format!("{op:?}"), "of": tree(inner)}),
+        ExprKind::IsNull { expr, negated } => json!({"postfix": if *negated { "IS NOT NULL" } else { "IS NULL" }, "of": tree(expr)}),
         other => json!(format!("{other:?}").chars().take(40).collect::<String>()),
     }
 }
